@@ -1,6 +1,7 @@
 #!/bin/bash
 # run every seeded patch against its property's quick check; print one line each (used for DESIGN.md's table)
 cd "$(dirname "$0")/.."
+EVBAK=$(mktemp -d /tmp/evbak.XXXX); cp -r evidence/. $EVBAK/    # evidence of the clean tree is put back afterwards
 for d in seeded/*/; do s=$(basename $d); p=${s%%_*}
   git -C /repo apply /verif/seeded/$s/patch.diff || { echo "$s PATCH-FAILED"; continue; }
   ./check $p --tier quick > /tmp/sm_$s.log 2>&1; e=$?
@@ -8,3 +9,4 @@ for d in seeded/*/; do s=$(basename $d); p=${s%%_*}
   ob=$(grep -c "what: obligation\|no longer within the verified subset" /tmp/sm_$s.log); inp=$(grep "what:" /tmp/sm_$s.log | grep -vc "what: obligation\|no longer within")
   echo "$s exit=$e proof-obligation-lines=$ob failing-input-lines=$inp :: $(grep -m1 'what:' /tmp/sm_$s.log | cut -c9-170)"
 done
+cp -r $EVBAK/. evidence/; rm -rf $EVBAK
